@@ -106,6 +106,23 @@ def handler : Handler := fun op inp out =>
       let expect := if n = 0 then [] else reduceSpec (rot r (i.emod n).toNat)
       wordCase out (FW.rotated (FW.new a) i) expect
     | none => bad
+  | "index" =>
+    match run (do let a ← P.ints; let k ← P.nat; pure (a, k)) inp with
+    | some (a, k) =>
+      let m := match FW.index (FW.new a) k with
+        | .ok x => toString x
+        | _ => "PANIC"
+      let expect := letterAt (reduceSpec a) k
+      let got : Option (Option Int) := match out.toList with
+        | ["PANIC"] => some none
+        | [t] => t.toInt?.map some
+        | _ => none
+      match got with
+      | none => (m, fail "no-letter-or-panic-returned")
+      | some o => (m, check [
+          ("index-reads-kth-letter-of-the-reduced-word", expect.isNone || o == expect),
+          ("no-letter-beyond-the-end", expect.isSome || o == none)])
+    | none => bad
   | "cmp3" =>
     match run (do let a ← P.ints; let b ← P.ints; let c ← P.ints; pure (a, b, c)) inp with
     | some (a, b, c) =>
